@@ -329,6 +329,8 @@ func ruleStringBuffers(c *Ctx) {
 }
 
 // C04.needcopy — the copy decision can only be raised by the validator, never cleared.
+var reNeedCopy = regexp.MustCompile(`^\(\((0|L:src_length[^!|&]*)!=P:dstLength\)\|\|P:needCopy\)$`)
+
 func ruleNeedCopy(c *Ctx) {
 	p := c.G()
 	fd := p.Func("parseStringSimdValidateOnly")
@@ -352,13 +354,26 @@ func ruleNeedCopy(c *Ctx) {
 			}
 		}
 		if st == nil {
-			continue // needCopy untouched: fine
+			okAll = false
+			why = "*needCopy is not updated: a string whose decoded length differs from its source length (escapes) would be left as a reference into the input"
+			continue
 		}
 		v, _ := st.Val.SingleAtom()
-		// (P:needCopy || (src_length != dst)) in canonical commutative order
-		if !(strings.HasPrefix(v, "(") && strings.Contains(v, "||") && strings.Contains(v, "P:needCopy") && strings.Contains(v, "!=")) {
+		// (P:needCopy || (src_length != *dstLength)) in canonical commutative order; src_length is the local the kernel
+		// fills through its third pointer argument (the symbolic engine sees its initial 0)
+		if !reNeedCopy.MatchString(v) {
 			okAll = false
 			why = v
+		}
+		okArgs := false
+		for _, ef := range sp.Effects {
+			if ef.Kind == "call" && ef.Target == "_parse_string_validate_only" && len(ef.Args) == 4 {
+				okArgs = ef.Args[0].String() == "Pointer(&P:buf[1])" && ef.Args[2].String() == "Pointer(&L:src_length)" && ef.Args[3].String() == "Pointer(P:dstLength)" && strings.Contains(ef.Args[1].String(), "maxStringSize")
+			}
+		}
+		if !okArgs {
+			okAll = false
+			why = "the kernel is not called with (&buf[1], maxStringSize, &src_length, dstLength)"
 		}
 		// success result = kernel result != 0
 		if len(sp.Ret) == 1 {
